@@ -180,6 +180,9 @@ class Calls(DataModels):
     # ---------------------------------------------------------------- methods
     def call_method(self, I, obj, name, args, kw, node, fr):
         ln = line_of(node)
+        from .interp import SuperProxy
+        if isinstance(obj, SuperProxy):
+            return self.call_obj_method(I, obj.obj, name, args, kw, node, after=obj.clsname)
         if obj is None:
             raise PyExc('AttributeError', ln, 'None.%s' % name)
         if isinstance(obj, SStream):
@@ -235,6 +238,28 @@ class Calls(DataModels):
             raise Unsupported('struct.%s' % name)
         if isinstance(obj, (SBytes, bytes)):
             return self.bytes_method(I, obj, name, args, kw, node)
+        if isinstance(obj, ZlibObj):
+            if name == 'decompress':
+                data = args[0] if isinstance(args[0], SBytes) else self.to_sbytes(I, args[0])
+                from .vals import view_args
+                a = view_args(data)
+                if not I.ctx.branch(inflate_ok(*a)):
+                    raise PyExc('zlib.error', ln, 'corrupt deflate stream')
+                total = inflate_len(*a)
+                I.ctx.assume(total >= 0)
+                mx = args[1] if len(args) > 1 else kw.get('max_length', 0)
+                n = z3.If(to_int(mx) == 0, total, z3.If(total < to_int(mx), total, to_int(mx))) if is_sym(mx) else \
+                    (total if mx == 0 else z3.If(total < mx, total, z3.IntVal(mx)))
+                arr = inflate_arr(*a)
+                I.ctx.byte_arrays.append(arr)
+                return SBytes(arr, 0, n)
+            raise Unsupported('zlib object method %s' % name)
+        from .methods import ChunkList
+        if isinstance(obj, ChunkList):
+            if name == 'append':
+                obj.append(I, self, args[0])
+                return None
+            raise Unsupported('ChunkList.%s' % name)
         if isinstance(obj, list):
             return self.list_method(I, obj, name, args, kw, node)
         if isinstance(obj, dict):
@@ -288,11 +313,19 @@ class Calls(DataModels):
             return self.call(I, f, args, kw, node, fr)
         raise Unsupported('method %s on %r (line %s)' % (name, type(obj).__name__, ln))
 
-    def call_obj_method(self, I, obj, name, args, kw, node):
+    def call_obj_method(self, I, obj, name, args, kw, node, after=None):
         cls = self.real_class(obj.cls)
         if cls is None:
             raise Unsupported('unknown class %s' % obj.cls)
-        for k in cls.__mro__:
+        mro = list(cls.__mro__)
+        if after is not None:
+            idx = [i for i, k in enumerate(mro) if k.__name__ == after]
+            if not idx:
+                raise Unsupported('super(): %s not in the MRO of %s' % (after, obj.cls))
+            mro = mro[idx[0] + 1:]
+        for k in mro:
+            if k is object and name == '__init__':
+                return None
             if name in vars(k):
                 raw = vars(k)[name]
                 if isinstance(raw, staticmethod):
@@ -378,6 +411,17 @@ class Calls(DataModels):
         fr = Frame({}, None, func=sf)
         I.bind_args(fn, fr, list(args), dict(kw), sf)
         ln = line_of(node)
+        saved_ghost = dict(I.ghost)
+        try:
+            return self._apply_contract(I, c, fr, ln, node)
+        finally:
+            I.ghost.clear()
+            I.ghost.update(saved_ghost)
+
+    def _apply_contract(self, I, c, fr, ln, node):
+        from .stmts import gsub
+        for g, e in c.ghost.items():
+            I.ghost[gsub(g)] = I.pure_eval(e, fr)
         # preconditions
         for i, r in enumerate(c.requires):
             g = I.as_goal(I.pure_eval(r, fr))
@@ -411,17 +455,27 @@ class Calls(DataModels):
                 ctxname = I.ctx.fname('y!' + qn)
                 outer = self
 
+                nloops = len(extract.loops_of(extract.find(c.relpath, c.qualname)))
+                cghost = {k: v for k, v in I.ghost.items()}
+
                 def elem(i, ys=ys, fr=fr, ctxname=ctxname, old=old):
                     v = ys.make(I.ctx, ctxname, to_int(i))
-                    pn = I.ghost.get('_G_n')
+                    saved = dict(I.ghost)
                     po = I.old_frame
+                    I.ghost.update(cghost)
                     I.ghost['_G_n'] = to_int(i)
+                    # loop counters of the callee at the time of the i-th yield: unknown functions of i
+                    for o in range(nloops):
+                        kf = z3.Function('%s.k%d' % (ctxname, o), IntS, IntS)
+                        I.ghost['_G_k%d' % o] = kf(to_int(i))
+                        I.ctx.assume(kf(to_int(i)) >= 0)
                     I.old_frame = old
                     try:
                         for e in c.each_yield:
                             I.ctx.assume(I.as_goal(I.pure_eval(e, fr, {'value': v})))
                     finally:
-                        I.ghost['_G_n'] = pn
+                        I.ghost.clear()
+                        I.ghost.update(saved)
                         I.old_frame = po
                     return v
                 if prev_n is not None:
@@ -429,9 +483,18 @@ class Calls(DataModels):
                 else:
                     I.ghost.pop('_G_n', None)
                 return SGen(SList(elem, n, qn))
+            if c.result_expr is not None:
+                res = I.pure_eval(c.result_expr, fr)
+                for e in c.ensures:
+                    I.ctx.assume(I.as_goal(I.pure_eval(e, fr, {'result': res})))
+                return res
             if c.returns is None and any('result' in e for e in c.ensures):
                 raise Unsupported('contract %s constrains `result` but declares no `returns` shape' % c.qualname)
             res = c.returns.make(I.ctx, 'ret!' + c.qualname) if c.returns is not None else None
+            if c.sets:
+                target = fr.env.get('self')
+                for k, e in c.sets.items():
+                    target.attrs[k] = I.pure_eval(e, fr)
             for e in c.ensures:
                 I.ctx.assume(I.as_goal(I.pure_eval(e, fr, {'result': res})))
             return res
@@ -564,15 +627,24 @@ class Calls(DataModels):
 nulpos = z3.Function('nulpos', ArrS, IntS, IntS)     # least q >= p with B[q] == 0
 
 
-def cstring_at(I, arr, length, p):
-    """(ok, q): q = position of the first NUL at or after p; ok iff q < length"""
+def nul_axioms(I, arr, p):
+    """definition of q = nulpos(arr, p): the least position >= p holding a NUL, if any"""
     p = to_int(p)
     q = nulpos(arr, p)
     j = z3.Int('j!nul')
     I.ctx.assume(q >= p)
     I.ctx.assume(z3.ForAll([j], z3.Implies(z3.And(j >= p, j < q), z3.Select(arr, j) != 0),
                            patterns=[z3.Select(arr, j)]))
-    ok = q < to_int(length)
+    I.ctx.assume(z3.ForAll([j], z3.Implies(z3.And(j >= p, z3.Select(arr, j) == 0),
+                                           z3.And(z3.Select(arr, q) == 0, q <= j)),
+                           patterns=[z3.Select(arr, j)]))
+    return q
+
+
+def cstring_at(I, arr, length, p):
+    """(ok, q): q = position of the first NUL at or after p; ok iff it exists before `length`"""
+    q = nul_axioms(I, arr, p)
+    ok = z3.And(q < to_int(length), z3.Select(arr, q) == 0)
     return ok, q
 
 
@@ -953,6 +1025,22 @@ def _b_count(M, I, args, kw, node):
     return CountIter(args[0] if args else 0)
 
 
+class ZlibObj:
+    """zlib.decompressobj(): assumed contract decompress(z, n) = first n bytes of inflate(z)
+    (n = 0: no limit); may raise zlib.error on a corrupt stream"""
+    pass
+
+
+inflate_arr = z3.Function('inflate.arr', ArrS, IntS, IntS, ArrS)
+inflate_len = z3.Function('inflate.len', ArrS, IntS, IntS, IntS)
+inflate_ok = z3.Function('inflate.ok', ArrS, IntS, IntS, BoolS)
+
+
+def _b_decompressobj(M, I, args, kw, node):
+    I.assumptions.add('zlib.decompressobj().decompress(z, n) returns the first n bytes of inflate(z) (documented behaviour)')
+    return ZlibObj()
+
+
 class CeilDiv:
     def __init__(self, value):
         self.value = value
@@ -989,3 +1077,5 @@ _BUILTIN_TABLE = {
     type: _b_type, print: _b_print, chr: _b_chr, map: _b_map, itertools.count: _b_count,
     math.ceil: _b_ceil, float: _b_float,
 }
+import zlib as _zlib
+_BUILTIN_TABLE[_zlib.decompressobj] = _b_decompressobj
